@@ -176,13 +176,16 @@ static void sub_badtype(const args_t *a, long c, rng_t *r)
 #include <sys/mman.h>
 static void sub_hugebuf(const args_t *a, long c, rng_t *r)
 {
-	(void)a; (void)r;
-	static const uint64_t SZ[] = {0x7E000001ULL, 0x7F000000ULL, 0x7FFFFFFFULL, 0x80000000ULL, 0x80000001ULL, 0xFFFFFFFFULL, 0x100000000ULL, 0x100001000ULL, 0x200000309ULL};
-	uint64_t n = SZ[c % 9];
+	(void)r;
+	static const uint64_t SZ[] = {0x7E000001ULL, 0x7F000000ULL, 0x7FFFFFFFULL, 0x80000000ULL, 0x80000001ULL, 0xFFFFFFFFULL, 0x100000000ULL, 0x100001000ULL, 0x200000309ULL, 0xFFFFF000ULL, 0x80001000ULL};
+	uint64_t n = SZ[c % 11];
 	uint8_t *buf = mmap(NULL, n + 4096, PROT_READ, MAP_PRIVATE | MAP_ANONYMOUS | MAP_NORESERVE, -1, 0);
 	if (buf == MAP_FAILED) { inconclusive("cannot map %" PRIu64 " bytes", n); return; }
-	for (int alg = 3; alg <= 5; alg++) {
+	for (int alg = 1; alg <= 5; alg++) {
 		if (alg == 5 && n <= 0x7FFFFFFFULL) continue;      /* zstd would really compress 2 GiB: not cheap */
+		/* snappy and zlib do real work below 4 GiB: one 2 GiB + 4 KiB round trip each (zlib only in thorough), otherwise only sizes they must refuse */
+		if (alg == 1 && !(n > 0xFFFFFFFFULL || n == 0x80001000ULL)) continue;
+		if (alg == 2 && !(n >= 0xFFFFF000ULL || (n == 0x80001000ULL && a->thorough))) continue;
 		for (int pass = 0; pass < 2; pass++) {
 			uint8_t *out = NULL, *back = NULL; size_t lo = 0, lb = 0;
 			mtbl_res res = pass ? mtbl_compress_level((mtbl_compression_type)alg, 3, buf, n, &out, &lo) : mtbl_compress((mtbl_compression_type)alg, buf, n, &out, &lo);
